@@ -92,7 +92,7 @@ func (d *Datastore) SdcpbTransactionIntentToInternalTI(ctx context.Context, req 
 
 // replaceIntent takes a Transaction and treats it as a replaceIntent, replacing the whole device configuration with the content of the given intent.
 // returns the warnings as a []string and potential errors that happend during validation / from SBI Set()
-func (d *Datastore) replaceIntent(ctx context.Context, transaction *types.Transaction) ([]string, error) {
+func (d *Datastore) replaceIntent(ctx context.Context, transaction *types.Transaction, dryRun bool) ([]string, error) {
 
 	treeSCC := tree.NewTreeCacheClient(d.Name(), d.cacheClient)
 	// create a new TreeContext
@@ -137,6 +137,11 @@ func (d *Datastore) replaceIntent(ctx context.Context, transaction *types.Transa
 	warnings := validationResult.WarningsStr()
 
 	log.Infof("Transaction: %s - validation passed", transaction.GetTransactionId())
+
+	// a dry run ends here: nothing is sent to the device and the running store stays as it is
+	if dryRun {
+		return warnings, nil
+	}
 
 	// we use the TargetSourceReplace, that adjustes the tree results in a way
 	// that the whole config tree is getting replaced.
@@ -430,7 +435,7 @@ func (d *Datastore) TransactionSet(ctx context.Context, transactionId string, tr
 
 	// if replace intent is provided, kickoff the replace intent processing first
 	if transaction.GetReplace() != nil {
-		replaceWarn, err := d.replaceIntent(ctx, transaction)
+		replaceWarn, err := d.replaceIntent(ctx, transaction, dryRun)
 		if err != nil {
 			log.Errorf("error setting replace intent: %v", err)
 			return nil, err
